@@ -60,7 +60,9 @@ var pluralIrregular = strings.Fields(`atlas beef brother cafe child cookie corpu
 var singularIrregular = strings.Fields(`foes waves curves atlases beefs brothers cafes children cookies corpuses cows ganglions genies genera graffiti hoofs loaves men monies mongooses moves mythoi niches numina occiputs octopuses opuses oxen penises people sexes soliloquies testes trilbys turfs potatoes heroes teeth geese feet`)
 var uninflectedWords = strings.Fields(`Amoyese bison Borghese bream breeches britches buffalo cantus carp chassis clippers cod coitus Congoese contretemps corps debris diabetes djinn eland elk equipment Faroese flounder Foochowese gallows Genevese Genoese Gilbertese graffiti headquarters herpes hijinks Hottentotese information innings jackanapes Kiplingese Kongoese Lucchese mackerel Maltese multimedia mews moose mumps Nankingese news nexus Niasese Pekingese Piedmontese pincers Pistoiese pliers Portuguese proceedings rabies rice rhinoceros salmon Sarawakese scissors sea-bass series Shavese shears siemens species swine testes trousers trout tuna Vermontese Wenchowese whiting wildebeest Yengeese reindeer goldfish measles bourgeois smallpox sheep people glass`)
 
-var boundaryPrefixes = []string{"old ", "old-", "a.", "x/", "q+", "z:", "two words ", "9-", "é ", "世界 ", "UPPER-", "a-b-", "(", "\"", "x_y ", "tab\t", "nl\n"}
+var boundaryPrefixes = []string{"old ", "old-", "a.", "x/", "q+", "z:", "two words ", "9-", "é ", "世界 ", "UPPER-", "a-b-", "(", "\"", "x_y ", "tab\t", "nl\n",
+	// text that means something to a regexp replacement template or pattern
+	"$HOME ", "$1 ", "US$", "a$$b ", "${1} ", "\\1 ", "(.*) ", "[a-z]+ ", "100% ", "^"}
 var nonBoundaryPrefixes = []string{"é", "xé", "世", "ß"}
 
 type op struct {
